@@ -551,3 +551,406 @@ Module LineExamples.
     apply missing_required_rejected_lemma; vm_compute; reflexivity.
   Qed.
 End LineExamples.
+
+(* ================= 4. clause 6 on line descriptions: a text that does not convert ================= *)
+(* ---------- after the token loop (SpellArgs.finish again, for values that fit in number only) ---------- *)
+Section FinishShape.
+  Variables (f g : fmt) (A : list (str * arg)) (cns : list (str * cname)).
+  Hypothesis FF : fmt_facts f g A cns.
+  Variables (names V : list str).
+  Hypothesis Hnames : Spell.names_ok cns names = true.
+  Hypothesis Hsh : shape (get_arguments_all f) V = true.
+  Hypothesis Hclash : no_clash cns names V = true.
+  Hypothesis Hreq : req_ok (get_arguments_all f) V = true.
+
+  Let real := get_arguments_all f.
+  Let m := length cns.
+  Let pseudo := firstn m A.
+
+  Lemma finish_shape len po :
+    exists st2,
+      insert_missing A cns len {| ps_args := place A (names ++ V); ps_opts := po |} = Ok st2 /\
+      ps_opts st2 = po /\ missing_required A st2 = false /\
+      filter (keyin real) (ps_args st2) = place real V.
+  Proof.
+    pose proof (names_ok_length _ _ Hnames) as Hk. fold m in Hk.
+    pose proof (A_split f g A cns FF) as HAs. pose proof (pseudo_len f g A cns FF) as Hpl.
+    pose proof (pseudo_keys f g A cns FF) as Hpk. pose proof (pseudo_single f g A cns FF) as Hps.
+    pose proof (real_nodup f g A cns FF) as Hrn. cbv zeta in HAs, Hpl, Hpk, Hps, Hrn.
+    fold m in HAs, Hpl, Hpk, Hps. fold pseudo in HAs, Hpl, Hpk, Hps. fold real in HAs, Hrn.
+    assert (forall n, In n (map fst cns) -> shas n real = false) as Hcnr by (intros n Hn; exact (cns_not_real f g A cns FF n Hn)).
+    set (fixed0 := map (fun c : str * cname => (fst c, RCmd (snd c))) (skipn (length names) cns)).
+    assert (forall n, In n (map fst fixed0) -> In n (map fst cns)) as Hfx.
+    { intros n Hn. unfold fixed0 in Hn. rewrite map_map in Hn. cbn [fst] in Hn.
+      rewrite <- (firstn_skipn (length names) cns), map_app, in_app_iff. now right. }
+    assert (copy_values V real len fixed0 = Ok (fixed0 ++ place real V)) as Hcopy.
+    { apply copy_values_place; [exact Hsh|exact Hrn|].
+      intros n Hn Hn2. apply Hfx in Hn2. apply Hcnr in Hn2. rewrite (in_keys_shas real n Hn) in Hn2. discriminate. }
+    pose proof (shape_line_sh f g A cns FF _ _ Hnames Hsh) as HshA.
+    exists {| ps_args := supd (place A (names ++ V)) (fixed0 ++ place real V); ps_opts := po |}.
+    split; [|split; [reflexivity|split]].
+    - unfold insert_missing. cbn [ps_args ps_opts]. rewrite (flatten_place _ _ HshA).
+      rewrite (SpellArgs.skip_names_spec V names cns 0 Hnames Hclash). cbn [Nat.add].
+      replace (length names + length (skipn (length names) cns)) with m by (rewrite skipn_length; fold m; lia).
+      unfold m. rewrite (ff_real _ _ _ _ FF). fold real. fold fixed0. rewrite Hcopy. reflexivity.
+    - cbn [ps_args]. unfold missing_required.
+      destruct (existsb _ A) eqn:E; [exfalso|reflexivity].
+      apply existsb_exists in E as [[n a] [Hin H]]. cbn [fst snd ps_args] in H.
+      apply andb_prop in H as [Hr Hs]. apply negb_true_iff in Hs.
+      rewrite HAs in Hin. apply in_app_or in Hin as [Hin|Hin].
+      + assert (In n (map fst cns)) as Hn.
+        { rewrite <- Hpk. change n with (fst (n, a)). now apply in_map. }
+        rewrite <- (firstn_skipn (length names) cns), map_app, in_app_iff in Hn. destruct Hn as [Hn|Hn].
+        * rewrite supd_keeps in Hs; [discriminate|]. apply in_keys_shas.
+          rewrite HAs, (place_app _ _ _ Hps), map_app, in_app_iff. left.
+          rewrite (place_single_keys _ _ Hps), Hpk, firstn_length, Hpl, app_length.
+          rewrite <- firstn_map in Hn. eapply firstn_in_le; [|exact Hn]. lia.
+        * rewrite supd_has in Hs; [discriminate|]. rewrite map_app, in_app_iff. left.
+          unfold fixed0. rewrite map_map. cbn [fst]. exact Hn.
+      + rewrite supd_has in Hs; [discriminate|]. rewrite map_app, in_app_iff. right.
+        eapply req_ok_in; eauto.
+    - cbn [ps_args]. rewrite filter_supd, filter_app.
+      rewrite (filter_none real fixed0) by (intros k0 Hk0; apply Hcnr, Hfx, Hk0).
+      rewrite (filter_all real (place real V)) by (intros k0 Hk0; apply in_keys_shas; eapply place_keys_in; exact Hk0).
+      cbn [app].
+      rewrite HAs at 1. rewrite (place_app _ _ _ Hps), filter_app, Hpl.
+      rewrite (filter_none real (place pseudo _)).
+      2:{ intros k0 Hk0. apply Hcnr. rewrite <- Hpk. eapply place_keys_in. exact Hk0. }
+      rewrite (filter_all real (place real _)) by (intros k0 Hk0; apply in_keys_shas; eapply place_keys_in; exact Hk0).
+      cbn [app].
+      pose proof (supd_prefix (place real V) (place real (skipn m (names ++ V))) []) as Hsup. cbn [app] in Hsup.
+      apply Hsup.
+      + apply place_keys_nodup. exact Hrn.
+      + apply place_keys_prefix. rewrite skipn_length, app_length. lia.
+  Qed.
+End FinishShape.
+
+(* ---------- a positional value that does not convert ---------- *)
+Lemma arg_by_name f n a : sget n (get_arguments_all f) = Some a ->
+  has_argument f (AName n) true = true /\ get_argument f (AName n) true = Ok a.
+Proof. intros H. unfold has_argument, get_argument. cbn [get_arguments]. rewrite shas_sget, H. split; reflexivity. Qed.
+Lemma forallb_false_ex {X} (p : X -> bool) l : forallb p l = false -> exists x, In x l /\ p x = false.
+Proof.
+  induction l as [|x r IH]; cbn [forallb]; [discriminate|]. destruct (p x) eqn:E; cbn [andb].
+  - intros H. destruct (IH H) as (y & Hy & Hp). exists y. split; [now right|exact Hp].
+  - intros _. exists x. split; [now left|exact E].
+Qed.
+Lemma res_ok_false {X} (r : res X) : res_ok r = false -> exists k, r = Err k.
+Proof. destruct r; [discriminate|eauto]. Qed.
+
+Lemma unfit_bad_arg f : NoDup (map fst (get_arguments_all f)) ->
+  forall R1 V, incl R1 (get_arguments_all f) -> shape R1 V = true -> fits R1 V = false ->
+  exists n v, In (n, v) (place R1 V) /\ bad_arg f n v.
+Proof.
+  intros Hnd. induction R1 as [|[n a] R1' IH]; intros V Hincl Hsh Hfit.
+  - destruct V; discriminate.
+  - destruct V as [|v V']; [discriminate|].
+    assert (In (n, a) (get_arguments_all f)) as Hin by (apply Hincl; now left).
+    pose proof (sget_nodup_in _ n a Hnd Hin) as Hget. destruct (arg_by_name f n a Hget) as [Hh Hg].
+    cbn [place shape fits] in *. destruct (a_multi a) eqn:Hm.
+    + rewrite Hsh in Hfit. cbn [andb] in Hfit. apply forallb_false_ex in Hfit as (x & Hx & Hp).
+      apply res_ok_false in Hp as [k Hk].
+      exists n, (RList (v :: V')). split; [now left|]. split; [exact Hh|]. exists a. split; [exact Hg|].
+      split; [exact Hm|]. exists x, k. split; assumption.
+    + destruct (parse_typed (a_type a) (a_nullable a) (VStr v)) as [pv|k] eqn:Ek.
+      * cbn [res_ok andb] in Hfit. destruct (IH V' (fun x Hx => Hincl x (or_intror Hx)) Hsh Hfit) as (n' & v' & Hin' & Hb).
+        exists n', v'. split; [now right|exact Hb].
+      * exists n, (RStr v). split; [now left|]. split; [exact Hh|]. exists a. split; [exact Hg|].
+        split; [exact Hm|]. exists k. exact Ek.
+Qed.
+
+(* ---------- the events of a line whose forms are right ---------- *)
+Definition ev_form (f : fmt) (e : opt * given) : Prop :=
+  known f (fst e) /\
+  match snd e with
+  | GTrue => Spell.is_flag (fst e) = true
+  | GDefault => is_bare (fst e) = true
+  | GText s => o_accepts (fst e) = true
+  end.
+Lemma item_events_form f g it : item_form f g it = true -> Forall (ev_form f) (item_events it).
+Proof.
+  destruct it as [o long|o form s|o long|fl last|s]; cbn [item_form item_events]; intros H.
+  - apply andb_prop in H as [H _]. apply andb_prop in H as [H1 H2]. apply opt_ok_inv in H1 as (Hk & _).
+    constructor; [split; assumption|constructor].
+  - apply andb_prop in H as [H _]. apply andb_prop in H as [H1 H2]. apply opt_ok_inv in H1 as (Hk & _).
+    constructor; [split; assumption|constructor].
+  - apply andb_prop in H as [H _]. apply andb_prop in H as [H1 H2]. apply opt_ok_inv in H1 as (Hk & _).
+    constructor; [split; assumption|constructor].
+  - apply andb_prop in H as [Hfl Hlast]. apply Forall_app. split.
+    + clear Hlast. induction fl as [|o fl IH]; cbn in *; [constructor|].
+      apply andb_prop in Hfl as [H Hr]. apply andb_prop in H as [H _]. apply andb_prop in H as [H1 H2].
+      apply opt_ok_inv in H1 as (Hk & _). constructor; [split; assumption|exact (IH Hr)].
+    + destruct last as [[o gl]|]; [|constructor]. apply andb_prop in Hlast as [_ Hlast]. unfold last_form in Hlast.
+      cbn [fst snd] in Hlast. apply andb_prop in Hlast as [Hlast Hgl]. apply andb_prop in Hlast as [Hok _].
+      apply opt_ok_inv in Hok as (Hk & _). constructor; [|constructor]. unfold last_event. cbn [fst snd].
+      destruct gl as [s|s|]; (split; [exact Hk|]); cbn [fst snd]; [| |exact Hgl]; now apply andb_prop in Hgl as [_ Hgl].
+  - constructor.
+Qed.
+Lemma items_events_form f g l : items_form f g l = true -> Forall (ev_form f) (flat_map item_events l).
+Proof.
+  induction l as [|it r IH]; cbn [items_form flat_map]; intros H; [constructor|].
+  apply andb_prop in H as [H Hr]. apply andb_prop in H as [Hi _].
+  apply Forall_app. split; [eapply item_events_form; eauto|exact (IH Hr)].
+Qed.
+
+(* ---------- the option scratch map of such a line ---------- *)
+Lemma known_same f o o' : known f o -> known f o' -> o_long o = o_long o' -> o = o'.
+Proof. intros [H1 _] [H2 _] E. rewrite E in H1. congruence. Qed.
+
+(* every default stored for an omitted optional value converts *)
+Definition defaults_ok (f : fmt) (R : list (str * rawopt)) : Prop :=
+  forall n d, In (n, ODefault d) R -> forall o, get_option f n true = Ok o ->
+    res_ok (parse_typed (o_type o) (o_nullable o) d) = true.
+Lemma raw_event_defaults f R e : ev_form f e -> defaults_ok f R -> defaults_ok f (raw_event R e).
+Proof.
+  intros [[Hg Hh] He] HR. destruct e as [o gv]. cbn [fst snd] in *. unfold raw_event. cbn [fst snd].
+  destruct gv as [| |s].
+  - intros n d Hin. apply in_sset in Hin as [[_ Hv]|Hin]; [discriminate|exact (HR n d Hin)].
+  - intros n d Hin. apply in_sset in Hin as [[Hn Hv]|Hin]; [|exact (HR n d Hin)].
+    inversion Hv; subst. intros o' Ho'. rewrite Hg in Ho'. inversion Ho'; subst o'.
+    unfold is_bare in He. now apply andb_prop in He as [_ He].
+  - destruct (o_multi o); intros n d Hin; apply in_sset in Hin as [[_ Hv]|Hin]; try discriminate; exact (HR n d Hin).
+Qed.
+Lemma raw_events_defaults f es : Forall (ev_form f) es -> forall R, defaults_ok f R -> defaults_ok f (fold_left raw_event es R).
+Proof.
+  induction 1 as [|e es He Hes IH]; intros R HR; cbn [fold_left]; [exact HR|]. apply IH. now apply raw_event_defaults.
+Qed.
+
+(* Args.set_option over such a map fails with ValueError only (ParserLemmas.set_options_err, with the hypothesis
+   on the stored defaults that the line conditions give) *)
+Lemma set_options_err_def f : forall l a k, defaults_ok f l -> set_options f a l = Err k -> k = ValueError.
+Proof.
+  induction l as [|[n v] r IH]; intros a k Hd; cbn [set_options]; [discriminate|].
+  assert (defaults_ok f r) as Hd' by (intros n0 d Hin; apply (Hd n0 d); now right).
+  destruct (has_option f n true) eqn:Hh; [|apply IH; assumption].
+  destruct (has_option_get f n Hh) as [o Ho]. unfold set_option. cbn [get_option]. rewrite Ho. cbn [bind].
+  assert (forall k0, parse_raw_opt (o_type o) (o_nullable o) v = Err k0 -> k0 = ValueError) as Hraw.
+  { intros k0 Hk0. destruct v as [s| |d|l0].
+    - eapply parse_raw_opt_err; [|exact Hk0]. intros d Hd0; discriminate.
+    - eapply parse_raw_opt_err; [|exact Hk0]. intros d Hd0; discriminate.
+    - cbn [parse_raw_opt] in Hk0. pose proof (Hd n d (or_introl eq_refl) o Ho) as Hv. rewrite Hk0 in Hv. discriminate.
+    - eapply parse_raw_opt_err; [|exact Hk0]. intros d Hd0; discriminate. }
+  set (X := if o_multi o then _ else _). destruct X as [pv|k'] eqn:E; subst X; cbn [bind].
+  - apply IH; assumption.
+  - intros H. inversion H; subst. clear H. destruct (o_multi o).
+    + destruct v as [s| |d|l0].
+      * destruct (parse_raw_opt (o_type o) (o_nullable o) (OStr s)) eqn:E2; cbn [bind] in E; [discriminate|].
+        inversion E; subst. eapply Hraw; eauto.
+      * destruct (parse_raw_opt (o_type o) (o_nullable o) OTrue) eqn:E2; cbn [bind] in E; [discriminate|].
+        inversion E; subst. eapply Hraw; eauto.
+      * destruct (parse_raw_opt (o_type o) (o_nullable o) (ODefault d)) eqn:E2; cbn [bind] in E; [discriminate|].
+        inversion E; subst. eapply Hraw; eauto.
+      * destruct (parse_each (o_type o) (o_nullable o) l0) eqn:E2; cbn [bind] in E; [discriminate|].
+        inversion E; subst. eapply parse_each_err; eauto.
+    + destruct (o_accepts o); [eapply Hraw; eauto|discriminate].
+Qed.
+
+(* where the text of an occurrence ends up *)
+Lemma raw_event_other k R e : str_eqb k (ev_key e) = false -> sget k (raw_event R e) = sget k R.
+Proof.
+  unfold raw_event, ev_key. intros H. destruct (snd e); [| |destruct (o_multi (fst e))]; unfold sget, sset; rewrite sget_sset, H; reflexivity.
+Qed.
+Lemma raw_others k : forall es R, mentions k es = false -> sget k (fold_left raw_event es R) = sget k R.
+Proof.
+  unfold mentions. induction es as [|e r IH]; intros R H; cbn [fold_left]; [reflexivity|]. cbn [existsb] in H.
+  apply orb_false_elim in H as [H1 H2]. rewrite IH by exact H2. apply raw_event_other, H1.
+Qed.
+Lemma raw_multi_keeps f o s : known f o -> o_multi o = true -> forall es R l,
+  Forall (ev_form f) es -> sget (o_long o) R = Some (OList l) -> In s l ->
+  exists l', sget (o_long o) (fold_left raw_event es R) = Some (OList l') /\ In s l'.
+Proof.
+  intros Hk Hm. induction es as [|e r IH]; intros R l Hes Hg Hin; cbn [fold_left]; [eauto|].
+  inversion Hes as [|? ? He Hr]; subst.
+  destruct (str_eqb_spec (o_long o) (ev_key e)) as [E|Hne].
+  - destruct e as [o' gv]. unfold ev_key in E. cbn [fst] in E. destruct He as [Hk' Hgv]. cbn [fst snd] in *.
+    assert (o' = o) as -> by (symmetry; eapply known_same; eauto).
+    destruct gv as [| |s'].
+    + unfold Spell.is_flag in Hgv. apply andb_prop in Hgv as [_ Hgv]. rewrite Hm in Hgv. discriminate.
+    + unfold is_bare in Hgv. apply andb_prop in Hgv as [Hgv _]. apply andb_prop in Hgv as [_ Hgv]. rewrite Hm in Hgv. discriminate.
+    + apply (IH _ (l ++ [s'])); [exact Hr| |apply in_or_app; now left].
+      unfold raw_event. cbn [fst snd]. rewrite Hm, Hg. unfold sget, sset. rewrite sget_sset, str_eqb_refl. reflexivity.
+  - apply (IH _ l); [exact Hr| |exact Hin]. rewrite raw_event_other; [exact Hg|].
+    destruct (str_eqb_spec (o_long o) (ev_key e)); [contradiction|reflexivity].
+Qed.
+Lemma raw_bad_entry f es1 o s es2 R0 :
+  Forall (ev_form f) (es1 ++ (o, GText s) :: es2) ->
+  (o_multi o = true \/ mentions (o_long o) es2 = false) ->
+  exists v, In (o_long o, v) (fold_left raw_event (es1 ++ (o, GText s) :: es2) R0) /\
+            if o_multi o then exists l, v = OList l /\ In s l else v = OStr s.
+Proof.
+  intros Hall Hlast. apply Forall_app in Hall as [_ Hall]. inversion Hall as [|? ? [Hk Ha] Hes2]; subst. cbn [fst snd] in *.
+  rewrite fold_left_app. cbn [fold_left]. set (R1 := fold_left raw_event es1 R0).
+  destruct (o_multi o) eqn:Hm.
+  - assert (exists l, sget (o_long o) (raw_event R1 (o, GText s)) = Some (OList l) /\ In s l) as (l & Hg & Hin).
+    { unfold raw_event. cbn [fst snd]. rewrite Hm. eexists. split; [unfold sget, sset; rewrite sget_sset, str_eqb_refl; reflexivity|].
+      apply in_or_app. right. now left. }
+    destruct (raw_multi_keeps f o s Hk Hm es2 _ l Hes2 Hg Hin) as (l' & Hg' & Hin').
+    exists (OList l'). split; [apply sget_in in Hg'; exact Hg'|eauto].
+  - destruct Hlast as [Hc|Hlast]; [discriminate|].
+    exists (OStr s). split; [|reflexivity].
+    assert (sget (o_long o) (fold_left raw_event es2 (raw_event R1 (o, GText s))) = Some (OStr s)) as Hg.
+    { rewrite raw_others by exact Hlast. unfold raw_event. cbn [fst snd]. rewrite Hm. unfold sget, sset.
+      rewrite sget_sset, str_eqb_refl. reflexivity. }
+    apply sget_in in Hg. exact Hg.
+Qed.
+
+(* ---------- a line whose forms are right, whose values fit in number and reach every required argument:
+   all that is left to the parser, in both modes, is the conversion of the stored texts ---------- *)
+Lemma parse_form_line f d : fmt_ok f = true -> forms_ok f d = true ->
+  shape (get_arguments_all f) (values d) = true -> req_ok (get_arguments_all f) (values d) = true ->
+  forall len, parse f len (render d) =
+    do a1 <- set_arguments f {| ar_opts := []; ar_args := [] |} (place (get_arguments_all f) (values d));
+    set_options f a1 (fold_left raw_event (events d) []).
+Proof.
+  intros Hf Hwf Hsh Hreq len. destruct (fmt_ok_inv f Hf) as (g & A & cns & FF).
+  unfold forms_ok in Hwf. rewrite (ff_aug _ _ _ _ FF) in Hwf.
+  apply andb_prop in Hwf as [Hwf Hclash]. apply andb_prop in Hwf as [Hn Hit].
+  pose proof (shape_line_sh f g A cns FF _ _ Hn Hsh) as HshA.
+  pose proof (scans_rendered_line f g A cns d FF Hn Hit HshA) as Hscan.
+  destruct (finish_shape f g A cns FF (ld_names d) (values d) Hn Hsh Hclash Hreq false (fold_left raw_event (events d) []))
+    as (st2 & Hins & Hopts & Hmiss & Hfil).
+  fold (line_state A d) in Hins.
+  assert (parse f len (render d) = parse f false (render d)) as ->.
+  { destruct len; [|reflexivity]. exact (modes_agree_after_scan f g A cns _ _ _ (ff_aug _ _ _ _ FF) Hscan Hins Hmiss). }
+  rewrite (parse_after_scan f g A cns _ _ (ff_aug _ _ _ _ FF) Hscan), Hins, Hmiss, set_arguments_filter, Hfil, Hopts.
+  reflexivity.
+Qed.
+
+(* GENERAL FORM: some positional text does not convert, or the option scratch map holds a text that does not *)
+Theorem unconvertible_value_lemma f d : fmt_ok f = true -> forms_ok f d = true ->
+  shape (get_arguments_all f) (values d) = true -> req_ok (get_arguments_all f) (values d) = true ->
+  (fits (get_arguments_all f) (values d) = false \/
+   exists n v, In (n, v) (fold_left raw_event (events d) []) /\ bad_opt f n v) ->
+  forall len, parse f len (render d) = Err ValueError.
+Proof.
+  intros Hf Hwf Hsh Hreq Hbad len. rewrite (parse_form_line f d Hf Hwf Hsh Hreq).
+  destruct (fmt_ok_inv f Hf) as (g & A & cns & FF).
+  destruct (set_arguments f _ (place (get_arguments_all f) (values d))) as [a1|k] eqn:Ea; cbn [bind].
+  - destruct Hbad as [Hfit|(n & v & Hin & Hb)].
+    + destruct (unfit_bad_arg f (real_nodup f g A cns FF) _ _ (incl_refl _) Hsh Hfit) as (n & v & Hin & Hb).
+      destruct (set_arguments_bad f n v Hb _ {| ar_opts := []; ar_args := [] |} Hin) as [k Hk]. congruence.
+    + destruct (set_options_bad f n v Hb _ a1 Hin) as [k Hk]. rewrite Hk. f_equal.
+      eapply set_options_err_def; [|exact Hk].
+      unfold forms_ok in Hwf. rewrite (ff_aug _ _ _ _ FF) in Hwf.
+      apply andb_prop in Hwf as [Hwf _]. apply andb_prop in Hwf as [_ Hit].
+      apply (raw_events_defaults f (events d)); [exact (items_events_form f g _ Hit)|]. intros ? ? [].
+  - f_equal. eapply set_arguments_err; eauto.
+Qed.
+
+(* ONE positional text does not convert (any number of them, in fact) *)
+Theorem unconvertible_positional_rejected_lemma f d : fmt_ok f = true -> forms_ok f d = true ->
+  shape (get_arguments_all f) (values d) = true -> req_ok (get_arguments_all f) (values d) = true ->
+  fits (get_arguments_all f) (values d) = false ->
+  forall len, parse f len (render d) = Err ValueError.
+Proof. intros Hf Hwf Hsh Hreq Hfit. apply unconvertible_value_lemma; auto. Qed.
+
+(* ONE occurrence of an option carries a text that does not convert; the option is multi-valued, or the line
+   does not mention it again (a single-valued option keeps what its last mention gives) *)
+Theorem unconvertible_option_value_rejected_lemma f d o s es1 es2 : fmt_ok f = true -> forms_ok f d = true ->
+  shape (get_arguments_all f) (values d) = true -> req_ok (get_arguments_all f) (values d) = true ->
+  events d = es1 ++ (o, GText s) :: es2 ->
+  res_ok (parse_typed (o_type o) (o_nullable o) (VStr s)) = false ->
+  (o_multi o = true \/ mentions (o_long o) es2 = false) ->
+  forall len, parse f len (render d) = Err ValueError.
+Proof.
+  intros Hf Hwf Hsh Hreq Hev Hconv Hlast. apply unconvertible_value_lemma; auto. right.
+  destruct (fmt_ok_inv f Hf) as (g & A & cns & FF).
+  pose proof Hwf as Hwf'. unfold forms_ok in Hwf'. rewrite (ff_aug _ _ _ _ FF) in Hwf'.
+  apply andb_prop in Hwf' as [Hwf' _]. apply andb_prop in Hwf' as [_ Hit].
+  pose proof (items_events_form f g _ Hit) as Hall. fold (events d) in Hall. rewrite Hev in Hall |- *.
+  destruct (raw_bad_entry f es1 o s es2 [] Hall Hlast) as (v & Hin & Hv).
+  apply Forall_app in Hall as [_ Hall]. inversion Hall as [|? ? [[Hg Hh] Ha] _]; subst. cbn [fst snd] in *.
+  apply res_ok_false in Hconv as [k Hk].
+  exists (o_long o), v. split; [exact Hin|]. split; [exact Hh|]. exists o. split; [exact Hg|].
+  destruct (o_multi o) eqn:Hm.
+  - destruct Hv as (l & -> & Hl). split; [reflexivity|]. exists s, k. split; assumption.
+  - subst v. split; [reflexivity|]. split; [exact Ha|]. exists k. exact Hk.
+Qed.
+
+(* the same, pointing at the ITEM that carries the text *)
+Definition item_text (it : item) : option (opt * str) :=
+  match it with
+  | IVal o _ s => Some (o, s)
+  | IGroup _ (Some (o, GGlued s)) | IGroup _ (Some (o, GSep s)) => Some (o, s)
+  | _ => None
+  end.
+Lemma item_text_events it o s : item_text it = Some (o, s) -> exists pre, item_events it = pre ++ [(o, GText s)].
+Proof.
+  destruct it as [o' long|o' form s'|o' long|fl [[o' [s'|s'|]]|]|s']; cbn [item_text]; intros H; inversion H; subst.
+  - exists []. reflexivity.
+  - eexists. reflexivity.
+  - eexists. reflexivity.
+Qed.
+Theorem unconvertible_option_item_rejected_lemma f d its1 it its2 o s : fmt_ok f = true -> forms_ok f d = true ->
+  shape (get_arguments_all f) (values d) = true -> req_ok (get_arguments_all f) (values d) = true ->
+  ld_items d = its1 ++ it :: its2 -> item_text it = Some (o, s) ->
+  res_ok (parse_typed (o_type o) (o_nullable o) (VStr s)) = false ->
+  (o_multi o = true \/ mentions (o_long o) (flat_map item_events its2) = false) ->
+  forall len, parse f len (render d) = Err ValueError.
+Proof.
+  intros Hf Hwf Hsh Hreq Hits Htxt Hconv Hlast. destruct (item_text_events it o s Htxt) as [pre Hpre].
+  apply (unconvertible_option_value_rejected_lemma f d o s (flat_map item_events its1 ++ pre) (flat_map item_events its2));
+    auto.
+  unfold events. rewrite Hits, flat_map_app. cbn [flat_map]. rewrite Hpre, <- !app_assoc. reflexivity.
+Qed.
+
+(* ---------- non-vacuity of clause 6 ---------- *)
+Module ValueExamples.
+  Import SpellExamples LineExamples.
+  (* the well-formed line  srv add h1 --num=5 8080  for  server add <host> [<port:int>] [<files>...], and its mutations *)
+  Definition W2 := L [s "srv"; s "add"] [IPos (s "h1"); IVal o_num LongEq (s "5"); IPos (s "8080")] None.
+  Example W2_wf : wf_line F1 W2 = true. Proof. vm_compute. reflexivity. Qed.
+  (* the port is not a number *)
+  Definition U1 := L [s "srv"; s "add"] [IPos (s "h1"); IVal o_num LongEq (s "5"); IPos (s "http")] None.
+  Example U1_rejected : render U1 = [s "srv"; s "add"; s "h1"; s "--num=5"; s "http"] /\
+                        forall len, parse F1 len (render U1) = Err ValueError.
+  Proof. split; [vm_compute; reflexivity|]. apply unconvertible_positional_rejected_lemma; vm_compute; reflexivity. Qed.
+  (* ... after "--", command names omitted; "-" is not a number either *)
+  Definition U2 := L [] [IPos (s "h1")] (Some [s "-"; s "f"]).
+  Example U2_rejected : forall len, parse F1 len (render U2) = Err ValueError.
+  Proof. apply unconvertible_positional_rejected_lemma; vm_compute; reflexivity. Qed.
+  (* the text of --num is not a number: the only mention of the option *)
+  Definition U3 := L [s "srv"; s "add"] [IPos (s "h1"); IVal o_num LongEq (s "five"); IPos (s "8080")] None.
+  Example U3_rejected : forall len, parse F1 len (render U3) = Err ValueError.
+  Proof.
+    apply (unconvertible_option_item_rejected_lemma F1 U3 [IPos (s "h1")] (IVal o_num LongEq (s "five")) [IPos (s "8080")] o_num (s "five"));
+      try (vm_compute; reflexivity). right. vm_compute. reflexivity.
+  Qed.
+  (* ... the LAST of two mentions, written in a group of short options with a separate value *)
+  Definition U4 := L [s "srv"] [IVal o_num ShortGlued (s "5"); IPos (s "h1"); IGroup [o_verbose; o_quiet] (Some (o_num, GSep (s "1.5")))] (Some []).
+  Example U4_rejected : render U4 = [s "srv"; s "-n5"; s "h1"; s "-vqn"; s "1.5"; s "--"] /\
+                        forall len, parse F1 len (render U4) = Err ValueError.
+  Proof.
+    split; [vm_compute; reflexivity|].
+    apply (unconvertible_option_item_rejected_lemma F1 U4 [IVal o_num ShortGlued (s "5"); IPos (s "h1")]
+             (IGroup [o_verbose; o_quiet] (Some (o_num, GSep (s "1.5")))) [] o_num (s "1.5"));
+      try (vm_compute; reflexivity). right. vm_compute. reflexivity.
+  Qed.
+  (* why "last": a single-valued option keeps what its last mention gives; an earlier text is never converted *)
+  Definition U5 := L [s "srv"] [IVal o_num LongEq (s "five"); IPos (s "h1"); IVal o_num ShortSep (s "5")] None.
+  Example overwritten_bad_text_accepted : forms_ok F1 U5 = true /\ wf_line F1 U5 = false /\
+    render U5 = [s "srv"; s "--num=five"; s "h1"; s "-n"; s "5"] /\
+    forall len, parse F1 len (render U5) = Ok {| ar_opts := [(s "num", VInt 5)]; ar_args := [(s "host", VStr (s "h1"))] |}.
+  Proof. split; [|split; [|split; [|intros []]]]; vm_compute; reflexivity. Qed.
+  (* ... an omitted optional value as the last mention hides an earlier bad text as well *)
+  Definition U6 := L [] [IVal o_level LongEq (s "x"); IPos (s "h1"); IBare o_level true] None.
+  Example overwritten_by_default_accepted : forms_ok F1 U6 = true /\
+    forall len, parse F1 len (render U6) = Ok {| ar_opts := [(s "level", VInt 3)]; ar_args := [(s "host", VStr (s "h1"))] |}.
+  Proof. split; [|intros []]; vm_compute; reflexivity. Qed.
+  (* a multi-valued option converts every text it collected: the bad one need not be the last *)
+  Definition o_ids := {| o_long := s "ids"; o_short := Some (s "i"); o_flags := 554; o_default := VList [] |}.  (* REQUIRED_VALUE | MULTI_VALUED | INTEGER *)
+  Definition F7 := mk [EArg a_host; EOpt o_verbose; EOpt o_ids; EOpt o_num] None.
+  Definition U7 := L [] [IVal o_ids LongEq (s "1"); IPos (s "h"); IVal o_ids ShortSep (s "x"); IVal o_ids ShortGlued (s "3")] None.
+  Example U7_rejected : fmt_ok F7 = true /\ o_multi o_ids = true /\ forall len, parse F7 len (render U7) = Err ValueError.
+  Proof.
+    split; [vm_compute; reflexivity|]. split; [vm_compute; reflexivity|].
+    apply (unconvertible_option_item_rejected_lemma F7 U7 [IVal o_ids LongEq (s "1"); IPos (s "h")] (IVal o_ids ShortSep (s "x"))
+             [IVal o_ids ShortGlued (s "3")] o_ids (s "x")); try (vm_compute; reflexivity). left. vm_compute. reflexivity.
+  Qed.
+  (* the events form of the statement on the same line *)
+  Example U7_rejected_events : forall len, parse F7 len (render U7) = Err ValueError.
+  Proof.
+    apply (unconvertible_option_value_rejected_lemma F7 U7 o_ids (s "x") [(o_ids, GText (s "1"))] [(o_ids, GText (s "3"))]);
+      try (vm_compute; reflexivity). left. vm_compute. reflexivity.
+  Qed.
+End ValueExamples.
